@@ -135,7 +135,14 @@ def source_hash(mod=None):
     return _SRC_HASH[mod]
 
 
+# Solver budget multipliers for the two units whose hardest obligation (the case-split proof that the batch of new index rows
+# designates what was appended) needs seconds per path: a doubled budget keeps their verdict stable on a busy machine.
+UNIT_BUDGET_SCALE = {'container:Container.add_streamed_objects_to_pack': 2, 'container:Container.pack_all_loose@defaults': 2,
+                     'container:Container.pack_all_loose': 2, 'container:Container.pack_all_loose@frame': 2}
+
+
 def run_unit(u, budget, scale=1):
+    scale = scale * UNIT_BUDGET_SCALE.get(u['name'], 1)
     """Verify one unit in a worker process. The verdict is a function of (repository sources, engine, contracts, unit,
     solver budget); verdicts are memoised under out/cache by the digest of exactly those inputs, so that the properties
     sharing a unit do not re-prove it within one session. VERIF_NO_CACHE=1 disables the memo."""
